@@ -123,6 +123,15 @@ def one(name, mode, n, powerloss=False, payload=False):
         if powerloss and mode == 'kill':
             power_loss_image(d, snap)
             probs = ['after power loss: ' + x for x in examine(d, truth, targets)]
+        if mode in ('kill', 'fault') and not probs:
+            # the crash left a consistent folder: a user now retries maintenance through a new handle (repack, pack_all_loose,
+            # clean_storage - each may refuse); whatever they do, nothing stored may be lost and the folder must stay consistent
+            fr = subprocess.run([common.PY, os.path.join(common.VERIF, 'harness', 'followup_child.py'), d], capture_output=True, text=True,
+                                env=common.child_env(), timeout=600)
+            did = fr.stdout.strip().splitlines()[-1] if fr.stdout.strip() else f'rc={fr.returncode} {fr.stderr[-200:]}'
+            after = examine(d, truth, targets)
+            probs = [('after power loss, ' if powerloss else ('after the I/O error, ' if mode == 'fault' else 'after the crash, ')) + f'maintenance retried through a new handle ({did}): ' + x for x in after]
+            res['followup'] = did
         res['probs'] = probs
         if out:
             for k in ('final', 'rerun', 'valid', 'final_exc', 'raw_after_fault', 'retval'):
